@@ -43,6 +43,9 @@ def main():
             res["demo_with_change"] = "fails" if ("test result: FAILED" in out or rc != 0 or "panicked" in out) and "test result: ok" not in out else "PASSES(!): " + out[-200:]
         finally:
             sh("git -C /repo worktree remove --force %s" % wt)
+    if os.environ.get("SEED_NOCHECK") == "1":
+        print(json.dumps(res, indent=1))
+        return
     # run our checks against it
     rc, out = sh("git -C /repo status --short")
     assert out.strip() == "", "repo not clean: " + out
